@@ -32,6 +32,13 @@ RULE = ("histories: adaptive random walks on the real ClientSession (2-6 GET/HEA
         "the Upgrade token spelt websocket/WebSocket/Websocket/WEBSOCKET/tcp/TCP. Keep-alive sweep class (every run): "
         "2-3 different keys (host, port, proxy, scheme) with idle connections released at staggered times so that the "
         "connector's cleanup timer fires while several are alive, then one request per key in both orders. "
+        "Spellings: Connection as case-insensitive comma list / repeated field / without space (close, Close, CLOSE, "
+        "'keep-alive, close', 'foo,close'), HTTP/1.0 Keep-Alive spellings, Transfer-Encoding Chunked/CHUNKED. Deterministic "
+        "lifecycle class (every run): each not-reused clause once (announced close, HTTP/1.0, body until close, released "
+        "unread, closed by caller, read/request cancelled, truncated, reset, lost while waiting, parse failure, "
+        "204/304/100+final reused), each followed by a same-key request. sock_read class (oracle + expectations, no "
+        "model): silence, stalled body, interim then silence => socktimeout and a new connection; idle time in the pool "
+        "and re-armed reads => no timeout, same connection. "
         "Interim responses: 100/102/103, one to three in a row, in the same read as the final response or in earlier reads "
         "with other ops in between. "
         "Connection-key classes: (a) random walks over 3 keys that vary host, port incl. explicit default, scheme, ssl= "
@@ -145,6 +152,11 @@ def keyparams(spec, j, variant=0):
 
 
 # ------------------------------------------------------------------------------ peer units
+CONN_CLOSE = [b"Connection: close", b"Connection: Close", b"connection: CLOSE", b"Connection: keep-alive, close",
+              b"Connection: foo,close", b"Connection:close", b"Connection: close , bar", b"Connection: foo\r\nConnection: close"]
+CONN_KA = [b"Connection: keep-alive", b"Connection: Keep-Alive", b"connection: KEEP-ALIVE", b"Connection: foo, keep-alive"]
+
+
 def bk(kind):
     """base kind: 'cl:205' (Content-Length framed response with status 205) -> 'cl'; '101:WebSocket' -> '101'"""
     return kind.split(":")[0]
@@ -156,18 +168,21 @@ def unit(u, kind, n):
     body = body[:n]
     xu = b"X-U: %d\r\n" % u
     kind, _, arg = kind.partition(":")
+    arg, _, te = arg.partition("~")          # chunked:<status>~<spelling of the transfer coding>
     sl = b"HTTP/1.1 %s Status\r\n" % arg.encode() if (arg and kind in ("cl", "chunked")) else b"HTTP/1.1 200 OK\r\n"
     if kind == "cl":
         head = sl + xu + b"Content-Length: %d\r\n\r\n" % n
         return head + body, len(head), True
     if kind == "chunked":
-        head = sl + xu + b"Transfer-Encoding: chunked\r\n\r\n"
+        head = sl + xu + b"Transfer-Encoding: " + (te or "chunked").encode() + b"\r\n\r\n"
         k = n // 2
         parts = [body[:k], body[k:]]
         enc = b"".join(b"%x\r\n%s\r\n" % (len(p), p) for p in parts if p) + b"0\r\n\r\n"
         return head + enc, len(head), True
     if kind == "close":
-        head = b"HTTP/1.1 200 OK\r\n" + xu + b"Connection: close\r\nContent-Length: %d\r\n\r\n" % n
+        # Connection is a case-insensitive, comma-separated list (RFC 9110 7.6.1)
+        line = CONN_CLOSE[int(arg)] if arg else b"Connection: close"
+        head = b"HTTP/1.1 200 OK\r\n" + xu + line + b"\r\nContent-Length: %d\r\n\r\n" % n
         return head + body, len(head), True
     if kind == "eofbody":
         head = b"HTTP/1.1 200 OK\r\n" + xu + b"\r\n"
@@ -191,7 +206,8 @@ def unit(u, kind, n):
         head = b"HTTP/1.0 200 OK\r\n" + xu + b"Content-Length: %d\r\n\r\n" % n
         return head + body, len(head), True
     if kind == "http10ka":
-        head = b"HTTP/1.0 200 OK\r\n" + xu + b"Connection: keep-alive\r\nContent-Length: %d\r\n\r\n" % n
+        line = CONN_KA[int(arg)] if arg else b"Connection: keep-alive"
+        head = b"HTTP/1.0 200 OK\r\n" + xu + line + b"\r\nContent-Length: %d\r\n\r\n" % n
         return head + body, len(head), True
     if kind == "101":
         # protocol names are case-insensitive (RFC 9110 7.8): IIS answers `Upgrade: WebSocket`
@@ -249,7 +265,7 @@ class Peer:
         if r < 0.42:
             self.add(c, main, n)
         elif r < 0.50:
-            self.add(c, "chunked", n)
+            self.add(c, "chunked" if rng.random() < 0.6 else "chunked:200~" + rng.choice(["Chunked", "CHUNKED", "gzip, chunked"][:2]), n)
         elif r < 0.60:
             self.add(c, main, max(n, 3)); self.add(c, "cl", rng.choice([0, 4]))            # complete surplus response
         elif r < 0.66:
@@ -260,7 +276,7 @@ class Peer:
         elif r < 0.76:
             self.add(c, "eofbody", n); self.close_after.add(c)
         elif r < 0.81:
-            self.add(c, "close", n)
+            self.add(c, "close" if rng.random() < 0.5 else "close:%d" % rng.randrange(len(CONN_CLOSE)), n)
         elif r < 0.89:
             # interim responses (100 / 102 / 103, one or several) before the final one; the delivery cut
             # decides whether they arrive with the final response or in separate reads
@@ -270,7 +286,7 @@ class Peer:
         elif r < 0.92:
             self.add(c, rng.choice(["204", "304"]), 0)
         elif r < 0.95:
-            self.add(c, rng.choice(["http10", "http10ka"]), n)
+            self.add(c, rng.choice(["http10", "http10ka", "http10ka:1", "http10ka:2", "http10ka:3"]), n)
         elif r < 0.97:
             self.add(c, "garbage", 0)
         elif r < 0.985:
@@ -523,7 +539,23 @@ def oracle(ctx, R, units, case):
                 shifted.add(c)      # from here on the peer's units and the client's exchanges are out of step
                 shift_off.setdefault(c, s)
                 if written.get(c):
-                    dirty.setdefault(c, "bytes-while-idle")
+                    # narrow the known "bytes while idle" shape: bytes that belong to the response the last holder
+                    # was actually given (the rest of its framed body, or the final response behind an interim one
+                    # it was completed with) are NOT unsolicited - the connection was released before its response ended
+                    li = written[c][-1][1]
+                    lu = legit_unit.get(c)
+                    r = R.resps[li] if li < len(R.resps) else None
+                    xu = r.headers.get("X-U") if r is not None else None
+                    own = False
+                    if (lu is not None and r is not None and lu["start"] <= s < lu["end"] and not R.meta[li]["skip"]
+                            and not (r.status in (204, 304) and xu == str(lu["u"]))):   # (HEAD/204/304 end at the empty line)
+                        if xu == str(lu["u"]):
+                            own = True
+                        else:
+                            o = req_off.get((c, li), 0)
+                            own = any(un["start"] >= o and un["end"] <= lu["start"] and not un["final"] and xu == str(un["u"])
+                                      for un in units.get(c, []))
+                    dirty.setdefault(c, "own-response-bytes-arrive-after-release" if own else "bytes-while-idle")
             else:
                 le = legit_end.get(c)
                 if le == "none-yet":
@@ -555,7 +587,7 @@ def oracle(ctx, R, units, case):
                     if un["start"] >= o and un["final"]:
                         # the answer itself says the connection ends with it
                         r = R.resps[holder] if holder < len(R.resps) else None
-                        if (un["kind"] in ("close", "http10", "eofbody") and un["start"] + un["head"] <= e
+                        if (bk(un["kind"]) in ("close", "http10", "eofbody") and un["start"] + un["head"] <= e
                                 and r is not None and r.headers.get("X-U") == str(un["u"])):
                             dirty.setdefault(c, "peer-announced-close")
                         break
@@ -657,6 +689,16 @@ def oracle(ctx, R, units, case):
                 else:
                     sig = "C06/stale-bytes/surplus-after-body-end-in-same-read"
             viol.append((sig, f"response {j} is unit {u} of connection {c} whose bytes arrived while holder={t}"))
+    # ---- a failure that predates the request: a request that fails in the very op in which it was issued, on a
+    #      connection that had served another request before, was handed a connection that had already failed
+    qops = [i for i, o in enumerate(R.ops) if o[0] == "Q"]
+    for j, (i, kind) in first_fail.items():
+        if j < len(qops) and i == qops[j] and kind not in ("cancelled",):
+            for c in used_so_far.get(j, []):
+                if len([w for w in written.get(c, []) if w[1] != j]) > 0 and min(w[0] for w in written[c]) < i:
+                    viol.append(("C06/stale-failure/request-fails-at-once-on-reused-connection",
+                                 f"request {j} failed with {kind} in the step in which it was issued, on connection {c} that had served a request before"))
+                    break
     # ---- only final responses are responses: an interim 1xx (other than 101) must never be handed out
     for j in range(len(R.tasks)):
         r = R.resps[j]
@@ -796,7 +838,7 @@ def scripted_walk(steps):
         for st in it:
             if st[0] == "Q":
                 return ("Q", K, False, b"")
-            if st[0] in ("D", "A"):
+            if st[0] in ("D", "A", "L", "C", "K"):
                 return st
             c = R.used[st[1]][-1] if st[1] < len(R.used) and R.used[st[1]] else None
             if c is None:
@@ -894,10 +936,49 @@ def framing_cases():
                 out.append([("Q",), ("send", 0, f"{kind}:{st}", 7, how), ("D", 0), ("rest", 0), ("A", 1), ("Q",),
                             ("resp", 1), ("D", 1)])
                 out.append([("Q",), ("send", 0, f"{kind}:{st}", 7, how), ("rest", 0), ("D", 0), ("Q",), ("resp", 1), ("D", 1)])
+    # every "such a connection is not reused" clause once, deterministically, each followed by a same-key request
+    tail = [("A", 1), ("Q",), ("resp", 1), ("D", 1)]
+    for i in range(len(CONN_CLOSE)):                                   # the peer announces the close, any spelling
+        out.append([("Q",), ("send", 0, f"close:{i}", 4, "all"), ("D", 0)] + tail)
+        out.append([("Q",), ("send", 0, f"close:{i}", 4, "head"), ("D", 0), ("rest", 0)] + tail)
+    for i in range(len(CONN_KA)):                                      # HTTP/1.0 stays open only with keep-alive
+        out.append([("Q",), ("send", 0, f"http10ka:{i}", 4, "all"), ("D", 0)] + tail)
+    out.append([("Q",), ("send", 0, "http10", 4, "all"), ("D", 0)] + tail)
+    for te in ("chunked", "Chunked", "CHUNKED"):
+        out.append([("Q",), ("send", 0, f"chunked:200~{te}", 6, "all"), ("D", 0)] + tail)
+        out.append([("Q",), ("send", 0, f"chunked:200~{te}", 6, "head"), ("D", 0), ("rest", 0)] + tail)
+    out.append([("Q",), ("send", 0, "eofbody", 4, "all"), ("D", 0), ("X", 0, False)] + tail)        # body until close
+    out.append([("Q",), ("send", 0, "cl", 9, "head"), ("L", 0)] + tail)                          # released unread
+    out.append([("Q",), ("send", 0, "cl", 9, "head"), ("L", 0), ("rest", 0)] + tail)
+    out.append([("Q",), ("send", 0, "cl", 9, "head"), ("C", 0)] + tail)                          # closed by the caller
+    out.append([("Q",), ("send", 0, "cl", 9, "all"), ("C", 0)] + tail)
+    out.append([("Q",), ("send", 0, "cl", 9, "head"), ("D", 0), ("K", 0)] + tail)                # read cancelled
+    out.append([("Q",), ("K", 0)] + tail)                                                       # request cancelled
+    out.append([("Q",), ("send", 0, "cl", 9, "head"), ("D", 0), ("X", 0, False)] + tail)          # truncated by the peer
+    out.append([("Q",), ("send", 0, "cl", 9, "head"), ("D", 0), ("X", 0, True)] + tail)
+    out.append([("Q",), ("X", 0, False), ("resp", 0), ("D", 0)] + tail)                          # lost while waiting (one retry)
+    out.append([("Q",), ("garbage", 0)] + tail)                                                 # failed
+    out.append([("Q",), ("send", 0, "204", 0, "all"), ("D", 0)] + tail)                          # bodiless: reused
+    out.append([("Q",), ("send", 0, "304", 0, "all"), ("D", 0)] + tail)
+    out.append([("Q",), ("send", 0, "100", 0, "all"), ("send", 0, "cl", 4, "all"), ("D", 0)] + tail)
     for tok in ("websocket", "WebSocket", "Websocket", "WEBSOCKET", "tcp", "TCP"):
         out.append([("Q",), ("send", 0, f"101:{tok}", 0, "all"), ("D", 0), ("A", 1), ("Q",), ("resp", 1), ("D", 1)])
         out.append([("Q",), ("send", 0, f"101:{tok}", 4, "head"), ("Q",), ("rest", 0), ("resp", 1), ("D", 1)])
     return out
+
+
+SOCK_READ = 16      # units (2 s): below aiohttp's 5 s ceil threshold, so the timer is exact
+SOCK_READ_CASES = [
+    # (steps, expected final (phase, error) per request, expected connections per request)
+    ([("Q",), ("A", 17), ("Q",), ("resp", 1), ("D", 1)], ["failed:socktimeout", "done"], ["0", "1"]),                      # silence
+    ([("Q",), ("send", 0, "cl", 9, "head"), ("D", 0), ("A", 17), ("Q",), ("resp", 1), ("D", 1)], ["failed:socktimeout", "done"], ["0", "1"]),
+    ([("Q",), ("resp", 0), ("D", 0), ("A", 17), ("Q",), ("resp", 1), ("D", 1)], ["done", "done"], ["0", "0"]),                # idle time is not read time
+    ([("Q",), ("send", 0, "204", 0, "all"), ("D", 0), ("A", 17), ("Q",), ("resp", 1), ("D", 1)], ["done", "done"], ["0", "0"]),
+    ([("Q",), ("send", 0, "103", 0, "all"), ("A", 17), ("Q",), ("resp", 1), ("D", 1)], ["failed:socktimeout", "done"], ["0", "1"]),
+    ([("Q",), ("A", 10), ("send", 0, "cl", 9, "head"), ("A", 10), ("rest", 0), ("D", 0), ("A", 17), ("Q",), ("resp", 1), ("D", 1)],
+     ["done", "done"], ["0", "0"]),                                                                                        # every read re-arms the timer
+    ([("Q",), ("send", 0, "cl", 9, "head"), ("A", 17), ("D", 0), ("Q",), ("resp", 1), ("D", 1)], ["failed:socktimeout", "done"], ["0", "1"]),
+]
 
 
 def expect_walk(script, split):
@@ -1120,6 +1201,20 @@ def check(ctx):
         recs.append((case, R.states, R.ops, viol)); lines.append(model_line(pcfg, R.ops))
         del R
     flush()
+    # sock_read timeout (oracle only: the model has one timer, the total timeout): a timed-out connection is not
+    # reused, a reused connection does not bring an old timeout with it, reads re-arm the timer
+    scfg = {"forceClose": False, "keepalive": 120, "total": 0, "sockRead": SOCK_READ}
+    for steps, want, wconn in SOCK_READ_CASES:
+        next_op, peer = scripted_walk(steps)
+        R = M.run_scenario(scfg, next_op, lambda spec, j: keyparams(spec, j, 0))
+        units = {c: list(us) for c, us in peer.units.items()}
+        case, viol = evaluate(ctx, R, units, {}, scfg, "sock_read")
+        ctx.hit("sock-read-class")
+        ex = R.states[-1][2:R.states[-1].index("] C[")].split(";") if R.states else []
+        got = [e.split(",")[0] + (":" + e.rsplit("err:", 1)[1] if "err:" in e else "") for e in ex]
+        gconn = [e.split(",")[2] for e in ex]
+        ctx.compare({"sock_read": True, **case}, [got, gconn], [want, wconn], "sock_read timeout expectations (timed-out => new connection; idle time is not read time)")
+        del R
     # request bodies with Expect: 100-continue (oracle only: the model has no request bodies):
     # early final response without 100 / 100 then final / interim 103 then 100 then final; then a same-key request
     for script in (["final"], ["100", "final"], ["103", "100", "final"], ["final-close"]):
